@@ -70,3 +70,11 @@ Proof.
   rewrite W in E. injection E as <-. rewrite Forall_forall in F. exact (F p Hin).
 Qed.
 Print Assumptions C05_cargo_covers_value.
+
+(* Cargo.toml, structural part: for ANY document and any tree tree-sitter can produce for it, every reported location
+   is non-inverted, inside the document, and its line/column is the position of its start offset *)
+Theorem C05_cargo_toml_structural :
+  forall content root pkgs, wf_cst content root = true -> string_nodes_ok content root = true ->
+  walk_cargo_toml content root = Some pkgs -> forall p, In p pkgs -> structural_ok content p.
+Proof. exact cargo_toml_structural. Qed.
+Print Assumptions C05_cargo_toml_structural.
